@@ -140,13 +140,13 @@ func renderTok(name string, c Civil) (string, bool) {
 
 // fmtInfo is what the harness derives from a format string
 type fmtInfo struct {
-	f                                              string
-	toks                                           []item
-	names                                          []string // token names in order ("" for literals)
+	f                                                        string
+	toks                                                     []item
+	names                                                    []string // token names in order ("" for literals)
 	hasY, hasMo, hasD, hasH, has12, hasP, hasMi, hasS, hasMs bool
-	hasNumZone, hasAbbr                            bool
-	twoDigitYear                                   bool
-	known                                          bool
+	hasNumZone, hasAbbr                                      bool
+	twoDigitYear                                             bool
+	known                                                    bool
 }
 
 func analyse(terms [][3]string, f string) *fmtInfo {
